@@ -7,6 +7,7 @@ package main
 
 import (
 	"encoding/json"
+	"math/big"
 	"flag"
 	"fmt"
 	"go/ast"
@@ -98,6 +99,23 @@ func parseCfg(lines []string, def HarnessCfg) HarnessCfg {
 				cfg.TimeoutMs, _ = strconv.Atoi(v)
 			case "feasible", "prune":
 				cfg.Feasible = true
+			case "capture":
+				// capture=Func:v1+v2+...  trigger=v  cut=v1+v2
+				i := strings.Index(v, ":")
+				if i > 0 {
+					cfg.CapFunc = v[:i]
+					cfg.CapVars = map[string]bool{}
+					for _, n := range strings.Split(v[i+1:], "+") {
+						cfg.CapVars[n] = true
+					}
+				}
+			case "trigger":
+				cfg.CapTrigger = v
+			case "cut":
+				cfg.CapCut = map[string]bool{}
+				for _, n := range strings.Split(v, "+") {
+					cfg.CapCut[n] = true
+				}
 			case "stub":
 				// stub=full.Name:harnessFunc
 				for _, one := range strings.Split(v, ",") {
@@ -131,6 +149,7 @@ func main() {
 	out := flag.String("out", "", "result json")
 	smtdir := flag.String("smtdir", "", "directory for SMT-LIB logs")
 	defTimeout := flag.Int("timeout", 60000, "per query timeout ms")
+	pinFile := flag.String("pin", "", "model json (name -> value) used to pin inputs named by the harness option pin=<regexp>")
 	flag.Parse()
 	debug.SetGCPercent(400)
 
@@ -166,7 +185,7 @@ func main() {
 	if nerr > 0 {
 		fatal("package load errors")
 	}
-	prog, spkgs := ssautil.AllPackages(pkgs, ssa.InstantiateGenerics)
+	prog, spkgs := ssautil.AllPackages(pkgs, ssa.InstantiateGenerics|ssa.GlobalDebug)
 	prog.Build()
 	loadSecs := time.Since(t0).Seconds()
 	if len(spkgs) == 0 || spkgs[0] == nil {
@@ -242,6 +261,9 @@ func main() {
 			if *smtdir != "" {
 				logp = fmt.Sprintf("%s/%s.smt2", *smtdir, d.name)
 			}
+			if *pinFile != "" {
+				d.cfg.Opts["pinfile"] = *pinFile
+			}
 			results[i] = runHarness(prog, fn, d.cfg, *solverKind, *cross, logp)
 			results[i].Pkg = *pkgPath
 		}(i)
@@ -281,6 +303,22 @@ func runHarness(prog *ssa.Program, fn *ssa.Function, cfg HarnessCfg, solverKind,
 	c := cfg
 	ex := NewExec(prog, &c)
 	ex.harnessPkg = fn.Pkg
+	if pf := cfg.Opts["pinfile"]; pf != "" && cfg.Opts["pin"] != "" {
+		if data, err := os.ReadFile(pf); err == nil {
+			var mj struct {
+				Model map[string]string `json:"model"`
+			}
+			if json.Unmarshal(data, &mj) == nil {
+				ex.pinRe = regexp.MustCompile(cfg.Opts["pin"])
+				ex.pinVals = map[string]*big.Int{}
+				for k, v := range mj.Model {
+					if b, ok := new(big.Int).SetString(v, 10); ok {
+						ex.pinVals[k] = b
+					}
+				}
+			}
+		}
+	}
 	ex.ts.BvUF = cfg.Opts["bitops"] != "bv"
 	chain := solverKind
 	if c, ok := cfg.Opts["solvers"]; ok {
